@@ -353,7 +353,9 @@ PROPS = {
     "C04": {"tags": [2, 3, 7], "ppref": ("C04",), "batches": [
         B("c04", 800, 4800, step=True, kinds_wanted=[2, 3])]},
     "C05": {"tags": SCREEN, "ppref": ("C05",), "batches": [
-        B("c05", 800, 4800, step=True, kinds_wanted=[4])]},
+        B("c05", 800, 4800, step=True, kinds_wanted=[4]),
+        # grapheme mode: erases over cells that hold clusters and late merges (marks merged into blanks and characters)
+        B("c05g", 200, 1200, step=True, kinds_wanted=[4], modes="1", tags=SCREEN + [10])]},
     "C06": {"tags": SCREEN, "ppref": ("C06",), "batches": [
         B("c06", 800, 4800, step=True, kinds_wanted=[5, 14, 2])]},
     "C07": {"tags": [2, 3, 7], "ppref": ("C07",), "batches": [
